@@ -120,7 +120,7 @@ Lemma pipe_lo st a rest x :
   LInvW lc st -> l_agenda st = a :: rest -> (forall b, In b (l_agenda st) -> (ae_time a <= ae_time b)%Q) ->
   In x (pipe st) -> (ae_time a <= snd x)%Q.
 Proof.
-  intros [W0 Wp We0 WDs WAs Wst0] E Hall Hx. pose proof We0 as We. rewrite Forall_forall in We. destruct x as [it td]. cbn [snd].
+  intros [W0 Wp We0 WDs WAs Wst0 Wlen0] E Hall Hx. pose proof We0 as We. rewrite Forall_forall in We. destruct x as [it td]. cbn [snd].
   unfold pipe in Hx. apply in_app_or in Hx as [Hx|Hx]; [|apply in_app_or in Hx as [Hx|Hx]; [|apply in_app_or in Hx as [Hx|Hx]]].
   - apply In_heldA in Hx as (b & k & p & tm & ct & Hb & Hev & _ & ->).
     pose proof (Hall b Hb) as T1. pose proof (We b Hb) as T2. destruct Hev as [Ev|Ev]; rewrite Ev in T2; cbn [entry_w] in T2; lra.
@@ -157,7 +157,7 @@ Qed.
 Lemma pipe_hi st x :
   LInvW lc st -> In x (pipe st) -> (snd x <= l_now st + (nlen (wd_items (l_wd st)) + 2) * d)%Q.
 Proof.
-  intros [W0 Wp We0 WDs WAs Wst0] Hx. pose proof We0 as We. rewrite Forall_forall in We. destruct x as [it td]. cbn [snd].
+  intros [W0 Wp We0 WDs WAs Wst0 Wlen0] Hx. pose proof We0 as We. rewrite Forall_forall in We. destruct x as [it td]. cbn [snd].
   pose proof (nlen_nonneg (wd_items (l_wd st))) as Hn.
   unfold pipe in Hx. apply in_app_or in Hx as [Hx|Hx]; [|apply in_app_or in Hx as [Hx|Hx]; [|apply in_app_or in Hx as [Hx|Hx]]].
   - apply In_heldA in Hx as (b & k & p & tm & ct & Hb & Hev & _ & ->).
@@ -518,7 +518,7 @@ Lemma head_le_now_D st a rest :
   LInvW lc st -> l_agenda st = a :: rest -> (forall b, In b (l_agenda st) -> (ae_time a <= ae_time b)%Q) ->
   acount is_holdD (l_agenda st) = O -> wd_items (l_wd st) <> [] -> (ae_time a <= l_now st)%Q.
 Proof.
-  intros [W0 Wp We WDs WAs Wst0] E Hall Hc Hne. rewrite Forall_forall in We.
+  intros [W0 Wp We WDs WAs Wst0 Wlen0] E Hall Hc Hne. rewrite Forall_forall in We.
   destruct (sum_pos_ex _ _ _ (wd_wait _ _ WDs Hc Hne)) as (b & B1 & B2).
   pose proof (Hall b B1) as T1. pose proof (We b B1) as T2.
   destruct (ae_ev b) as [| | | |[]|[]| | | |]; cbn [is_putD is_initD entry_w] in *; destruct B2; try discriminate; lra.
@@ -590,7 +590,7 @@ Lemma step_Pres st a rest st' :
   Tr lc st a rest st' -> (droppedA lc (l_n2 st) = false \/ l_n2 st' = l_n2 st) ->
   Pres (last_ack (l_snd st)) (pipe lc st) (pipe lc st') (consumed st a).
 Proof.
-  intros Hm HB HW E Hn Hall HT Hnd. pose proof HW as [W0 Wp We WDs WAs Wst0]. rewrite E in We, WDs, WAs.
+  intros Hm HB HW E Hn Hall HT Hnd. pose proof HW as [W0 Wp We WDs WAs Wst0 Wlen0]. rewrite E in We, WDs, WAs.
   set (X := last_ack (l_snd st)).
   assert (ToP : forall x x', In x' (pipe lc st') -> better x x' -> consumed st a x \/ exists x', In x' (pipe lc st') /\ Rx X (fst x) (fst x') /\ (snd x' <= snd x)%Q).
   { intros x x' Hin [B1 B2]. right. exists x'. split; [exact Hin|]. split; [rewrite B1; apply Rx_refl|exact B2]. }
